@@ -153,9 +153,9 @@ def run_job(job, keep=None):
     before = (to_c(ast), sdump(ast))
     try:
         if kind == "F":
-            res = vlib.with_timeout(lambda: Analysis.run(ast, fin=fin, strict=strict), job.get("timeout", 60))
+            res = vlib.with_timeout(lambda: Analysis.run(ast, fin=fin, strict=strict), job.get("timeout", 25))
         else:
-            res = vlib.with_timeout(lambda: LoopAnalysis.run(ast, strict=strict), job.get("timeout", 60))
+            res = vlib.with_timeout(lambda: LoopAnalysis.run(ast, strict=strict), job.get("timeout", 25))
         rec["res"] = canon(res.to_dict())
         if keep is not None:
             keep.append(res)
@@ -186,7 +186,7 @@ def run_job_coq(job, keep=None):
         return r
     Analysis.run = staticmethod(cap)
     try:
-        rr = e2e.run_real(src, fin, strict, timeout=job.get("timeout", 60))
+        rr = e2e.run_real(src, fin, strict, timeout=job.get("timeout", 25))
     finally:
         Analysis.run = staticmethod(orig)
     if rr["exc"]:
@@ -410,6 +410,7 @@ def worker_fresh(jobs):
     from pymwp import Analysis, LoopAnalysis  # noqa: F401
     from pymwp.syntax import Coverage  # noqa: F401
     out = []
+    ntimeout = 0
     for job in jobs:
         r, w = os.pipe()
         pid = os.fork()
@@ -429,6 +430,11 @@ def worker_fresh(jobs):
             data = f.read()
         os.waitpid(pid, 0)
         out.append(json.loads(data) if data else {"harness_exc": "no data from child"})
+        if (out[-1].get("exc") or [None])[0] == "Timeout":
+            ntimeout += 1
+        if ntimeout >= 3:      # a tree on which analyses hang: do not spend the budget on it
+            out += [{"harness_exc": "skipped: 3 analyses timed out before"} for _ in jobs[len(out):]]
+            break
     return out
 
 
@@ -440,6 +446,7 @@ def worker_history(spec):
         inst = Instr()
         inst.install()
     out = []
+    ntimeout = 0
     for k, job in enumerate(spec["steps"]):
         keep = []
         if inst:
@@ -452,6 +459,11 @@ def worker_history(spec):
             inst.end_run(keep)
         rec["consts_ok"] = consts_ok(snap)
         out.append(rec)
+        if (rec.get("exc") or [None])[0] == "Timeout":
+            ntimeout += 1
+        if ntimeout >= 3:
+            out += [{"harness_exc": "skipped: 3 analyses timed out before", "consts_ok": consts_ok(snap)} for _ in spec["steps"][len(out):]]
+            break
     return {"steps": out, "viol": inst.viol if inst else [], "counts": inst.n if inst else {}, "hashseed": os.environ.get("PYTHONHASHSEED")}
 
 
@@ -836,9 +848,15 @@ def has_loop(rec):
         return False
 
 
+SHRINK_BUDGET = {"n": 4}
+
+
 def shrink_history(steps, k, tmp, fresh0, hashseed, instrument, pred):
     """smallest of: [k] alone, [j, k] for one earlier step j, the prefix up to k -- on which `pred(worker output, index of step k)` holds"""
     cands = [[k]] + [[j, k] for j in range(k - 1, -1, -1)][:8] + [list(range(k + 1))]
+    SHRINK_BUDGET["n"] -= 1
+    if SHRINK_BUDGET["n"] < 0:          # many failures: the first few are shrunk, the rest reported as found
+        return [dict(s) for s in steps[:k + 1]]
     for n, c in enumerate(cands):
         sub = [dict(steps[i]) for i in c]
         (res, err), = run_workers("history", [({"steps": sub, "instrument": instrument}, hashseed)], tmp, f"shr{k}_{n}_", par=1, timeout=300)
@@ -855,6 +873,7 @@ def run(ctx):
     vlib.import_pymwp()
     import e2e
     t0 = time.time()
+    SHRINK_BUDGET["n"] = 4
     failing, mism = [], []
     tmp = tempfile.mkdtemp(prefix="c13_")
     stats = {}
@@ -1042,6 +1061,9 @@ def run(ctx):
             refmodel_compare(ref_ok, mism)
         else:
             mism.append("model not built: reference-model correspondence not run")
+        ntimeouts = sum(1 for f in fresh for r in f.values() if (r.get("exc") or [None])[0] == "Timeout")
+        if ntimeouts:
+            mism.append(f"{ntimeouts} fresh-process analyses exceeded the per-analysis time limit (none does on the unchanged tree)")
         if nsteps and (counts_tot.get("corr_writes", 0) == 0 or nref_loops == 0):
             mism.append("generator degenerate: no corrected monomial observed " + str(counts_tot))
         lens = [len(h["steps"]) for h in histories]
@@ -1066,7 +1088,8 @@ def run(ctx):
                  "wall": {"histories_s": round(t_hist, 1), "fresh_s": round(t_fresh, 1), "total_s": round(time.time() - t0, 1)}}
     finally:
         shutil.rmtree(tmp, ignore_errors=True)
-    return {"failing": failing, "corr_mismatch": mism, "stats": stats}
+    mism = list(dict.fromkeys(mism))[:25]
+    return {"failing": failing[:60], "corr_mismatch": mism, "stats": stats}
 
 
 def replay(ctx, data):
